@@ -130,5 +130,13 @@ class Repairer:
 
     def get_results(self, res, smap):
         rr = RepairResults(smap)
-        rr.set_successful(True)
+        # The upload has recorded in smap which shares of the new version it
+        # managed to place. It is content with fewer than N (a server may have
+        # refused or lost a write), but then the file has not been repaired.
+        best_version = smap.best_recoverable_version()
+        successful = False
+        if best_version:
+            (num_distinct_shares, k, N) = smap.shares_available()[best_version]
+            successful = (num_distinct_shares >= N)
+        rr.set_successful(successful)
         return rr
